@@ -457,7 +457,7 @@ def mon_c18(run, world, f36_out=None, f38_out=None):
     return bad
 
 
-def mon_c12(run, world):
+def mon_c12(run, world, f40_out=None):
     """end-to-end consequence of deadline enforcement: with exact runtimes every task that completes under a planner that
     enforces deadlines does so by its deadline; a task that was hopeless when it was offered is never started"""
     bad = []
@@ -469,9 +469,16 @@ def mon_c12(run, world):
                  and not f.get("release_taskgraphs")) or pol == "Clockwork"
     if not enforcing:
         return bad
+    # known finding F40: the TetriSched-CPLEX formulation has no precedence rows, so a task offered ahead of its release
+    # (lookahead / release_taskgraphs) is planned before its parents end, waits for them, and may complete late
+    f40 = pol == "TetriSched_CPLEX" and (f.get("scheduler_lookahead", 0) > 0 or f.get("release_taskgraphs"))
     for x in run["final"]:
         if x[1] == "COMPLETED" and x[3] is not None and x[5] is not None and x[3] > x[5]:
-            bad.append("task %s completed at %s, after its deadline %s, under %s with deadline enforcement" % (x[0], x[3], x[5], pol))
+            msg = "task %s completed at %s, after its deadline %s, under %s with deadline enforcement" % (x[0], x[3], x[5], pol)
+            if f40 and f40_out is not None:
+                f40_out.append(msg)
+            else:
+                bad.append(msg)
     return bad
 
 
